@@ -1,0 +1,39 @@
+//go:build verif
+
+package encoder
+
+// Read-only views for the verification harness (compiled with -tags verif).
+
+// VerifFactors returns copies of the ECC 200 generator factor tables.
+func VerifFactors() (sets []int, table [][]int) {
+	sets = append([]int(nil), factorSets...)
+	table = make([][]int, len(factors))
+	for i := range factors {
+		table[i] = append([]int(nil), factors[i]...)
+	}
+	return
+}
+
+// VerifRandomize253 exposes the pad randomiser.
+func VerifRandomize253(codewordPosition int) byte { return randomize253State(codewordPosition) }
+
+// VerifRandomize255 exposes the Base-256 randomiser.
+func VerifRandomize255(ch byte, codewordPosition int) byte {
+	return base256Randomize255State(ch, codewordPosition)
+}
+
+// VerifSymbols returns the encoder's symbol table in lookup order as
+// (rectangular, dataCapacity, errorCodewords, symbolWidth, symbolHeight,
+// matrixWidth, matrixHeight, dataRegions, interleavedBlocks).
+func VerifSymbols() [][9]int {
+	out := make([][9]int, 0, len(symbols))
+	for _, s := range symbols {
+		r := 0
+		if s.rectangular {
+			r = 1
+		}
+		out = append(out, [9]int{r, s.dataCapacity, s.errorCodewords, s.GetSymbolWidth(), s.GetSymbolHeight(),
+			s.matrixWidth, s.matrixHeight, s.dataRegions, s.GetInterleavedBlockCount()})
+	}
+	return out
+}
